@@ -598,6 +598,11 @@ func (vc *VC) libCall(call ssa.CallInstruction, callee *ssa.Function, args []Ter
 		case "strings.Index", "strings.LastIndex":
 			vc.gfact(Imp(And(Ge(r, "0"), Eq(sx("slen", args[1]), "1")), Eq(sx("sat", args[0], r), sx("sat", args[1], "0"))))
 		}
+		if name == "strings.Index" {
+			// the text found: the suffix of s that starts at the result starts with the needle
+			fn := sym("spec:index")
+			vc.gfact(Imp(Ge(r, "0"), Eq(sx(fn, sx("ssub", args[0], r, sx("slen", args[0])), args[1]), "0")))
+		}
 		return true
 	case "strings.TrimSpace", "strings.TrimLeft", "strings.TrimRight", "strings.Trim", "strings.TrimPrefix", "strings.TrimSuffix", "strings.TrimFunc", "strings.TrimLeftFunc", "strings.TrimRightFunc":
 		r := strRes()
@@ -1032,6 +1037,38 @@ func (vc *VC) libCall(call ssa.CallInstruction, callee *ssa.Function, args []Ter
 			case "Len", "Cap", "Grow":
 			default:
 				set(vc.fresh("hasnl", "Bool"))
+			}
+			// the length of the builder's content
+			L := vc.arrCur(builderLenArr, builderLenSort)
+			cur := Sel(L, args[0])
+			setLen := func(t Term) { vc.setArr(builderLenArr, builderLenSort, Sto(L, args[0], t)) }
+			vc.gfact(Ge(cur, "0"))
+			switch m {
+			case "WriteString":
+				setLen(Add(cur, sx("slen", args[1])))
+			case "WriteByte":
+				setLen(Add(cur, "1"))
+			case "WriteRune":
+				n := vc.fresh("runelen", SInt)
+				vc.gfact(And(Ge(n, "1"), Le(n, "4")))
+				setLen(Add(cur, n))
+			case "Write":
+				setLen(Add(cur, sx("s_len", args[1])))
+			case "Reset":
+				setLen("0")
+			case "String":
+				if len(rs) == 1 {
+					vc.gfact(Eq(sx("slen", rs[0]), cur))
+				}
+			case "Len":
+				if len(rs) == 1 {
+					vc.gfact(Eq(rs[0], cur))
+				}
+			case "Cap", "Grow":
+			default:
+				n := vc.fresh("buflen", SInt)
+				vc.gfact(Ge(n, "0"))
+				setLen(n)
 			}
 		}
 		if m == "Grow" {
